@@ -270,6 +270,7 @@ type c09HelloOpt struct {
 	Skew     time.Duration
 	WrongKey bool
 	Name     string
+	Real     bool // sealed for the real clock (tests that do not run in a bubble)
 }
 
 var c09Sid atomic.Uint32
@@ -295,6 +296,9 @@ func c09Hello(o c09HelloOpt) []byte {
 	// in any bubble, so streams can be built outside and saved scenarios stay valid
 	skew := o.Skew
 	world := common.WorldState{Rand: rand.Reader, Now: func() time.Time { return c09Epoch.Add(skew) }}
+	if o.Real {
+		world.Now = func() time.Time { return time.Now().Add(skew) }
+	}
 	_, remote, auth, err := raw.ProcessRawConfig(world)
 	if err != nil {
 		panic(err)
@@ -443,6 +447,136 @@ func c09BreakHello(h []byte, rng *kit.Rng) ([]byte, string) {
 	}
 }
 
+// ---- structured mutations of a ClientHello: it stays a well-formed record / handshake / hello as far as the outer
+// lengths go, one extension is damaged from the inside (or repeated, removed, mis-declared)
+
+type c09Ext struct {
+	typ  int
+	body []byte
+}
+
+// c09SplitHello cuts a genuine hello into everything before the extension block and the extensions.
+func c09SplitHello(h []byte) (pre []byte, exts []c09Ext) {
+	p := 5 + 4 + 2 + 32
+	p += 1 + int(h[p])
+	p += 2 + (int(h[p])<<8 | int(h[p+1]))
+	p += 1 + int(h[p])
+	pre = h[:p]
+	p += 2
+	for p+4 <= len(h) {
+		typ, l := int(h[p])<<8|int(h[p+1]), int(h[p+2])<<8|int(h[p+3])
+		exts = append(exts, c09Ext{typ, append([]byte{}, h[p+4:p+4+l]...)})
+		p += 4 + l
+	}
+	return
+}
+
+// c09JoinHello rebuilds the record: extension block length, handshake length and record length are all honest.
+// declared[i] >= 0 overrides the length field of extension i (the block length stays that of the real bytes).
+func c09JoinHello(pre []byte, exts []c09Ext, declared map[int]int) []byte {
+	var block []byte
+	for i, e := range exts {
+		l := len(e.body)
+		if d, ok := declared[i]; ok {
+			l = d
+		}
+		block = append(block, byte(e.typ>>8), byte(e.typ), byte(l>>8), byte(l))
+		block = append(block, e.body...)
+	}
+	body := append(append([]byte{}, pre[9:]...), byte(len(block)>>8), byte(len(block)))
+	body = append(body, block...)
+	hs := append([]byte{1, byte(len(body) >> 16), byte(len(body) >> 8), byte(len(body))}, body...)
+	return append([]byte{pre[0], pre[1], pre[2], byte(len(hs) >> 8), byte(len(hs))}, hs...)
+}
+
+type c09Mutant struct {
+	label  string
+	stream []byte
+}
+
+// c09StructMutants: for EVERY extension of the hello - body truncated at every length (dense = all of them, else all
+// up to 40, every 13th, the last 40), every 16-bit and leading 8-bit inner length field set to +1 / -1 / 0 / max
+// (dense = every offset, else offsets < 8 and bodies <= 48 bytes, plus every entry of a key_share list), the
+// extension repeated, removed, and its own declared length off by +1 / -1 / 0xFFFF with an honest block length.
+func c09StructMutants(h []byte, dense bool) []c09Mutant {
+	pre, exts := c09SplitHello(h)
+	var out []c09Mutant
+	with := func(i int, body []byte) []c09Ext {
+		cp := append([]c09Ext{}, exts...)
+		cp[i] = c09Ext{exts[i].typ, body}
+		return cp
+	}
+	for i, e := range exts {
+		n := len(e.body)
+		name := fmt.Sprintf("extension %#04x (%d bytes)", e.typ, n)
+		for l := 0; l < n; l++ {
+			if dense || l <= 40 || l >= n-40 || l%13 == 0 {
+				out = append(out, c09Mutant{fmt.Sprintf("%s body truncated to %d", name, l), c09JoinHello(pre, with(i, e.body[:l]), nil)})
+			}
+		}
+		offs := map[int]bool{}
+		for o := 0; o+2 <= n; o++ {
+			if dense || o < 8 || n <= 48 {
+				offs[o] = true
+			}
+		}
+		if e.typ == 0x33 && n >= 2 { // key_share: list length, then (group, length, key) entries
+			for o := 2; o+4 <= n; {
+				offs[o+2] = true
+				o += 4 + (int(e.body[o+2])<<8 | int(e.body[o+3]))
+			}
+		}
+		for o := range offs {
+			v := int(e.body[o])<<8 | int(e.body[o+1])
+			for _, nv := range []int{v + 1, v - 1, 0, 0xffff} {
+				if nv < 0 || nv > 0xffff || nv == v {
+					continue
+				}
+				b := append([]byte{}, e.body...)
+				b[o], b[o+1] = byte(nv>>8), byte(nv)
+				out = append(out, c09Mutant{fmt.Sprintf("%s 16-bit field at %d: %d -> %d", name, o, v, nv), c09JoinHello(pre, with(i, b), nil)})
+			}
+		}
+		if n >= 1 {
+			for _, nv := range []int{int(e.body[0]) + 1, int(e.body[0]) - 1, 0, 0xff} {
+				if nv < 0 || nv > 0xff || nv == int(e.body[0]) {
+					continue
+				}
+				b := append([]byte{}, e.body...)
+				b[0] = byte(nv)
+				out = append(out, c09Mutant{fmt.Sprintf("%s first byte %d -> %d", name, e.body[0], nv), c09JoinHello(pre, with(i, b), nil)})
+			}
+		}
+		rep := append(append(append([]c09Ext{}, exts[:i+1]...), exts[i]), exts[i+1:]...)
+		out = append(out, c09Mutant{name + " repeated", c09JoinHello(pre, rep, nil)})
+		out = append(out, c09Mutant{name + " repeated at the end", c09JoinHello(pre, append(append([]c09Ext{}, exts...), exts[i]), nil)})
+		out = append(out, c09Mutant{name + " removed", c09JoinHello(pre, append(append([]c09Ext{}, exts[:i]...), exts[i+1:]...), nil)})
+		for _, d := range []int{n + 1, n - 1, 0xffff, 0} {
+			if d >= 0 && d != n {
+				out = append(out, c09Mutant{fmt.Sprintf("%s declared as %d bytes", name, d), c09JoinHello(pre, exts, map[int]int{i: d})})
+			}
+		}
+	}
+	return out
+}
+
+var c09StructOnce sync.Once
+var c09StructPool []c09Mutant
+
+// c09StructPick: a structured mutant of an UNAUTHORISED user's hello (class badext of the model)
+func c09StructPick(rng *kit.Rng) c09Mutant {
+	c09StructOnce.Do(func() {
+		for _, b := range []string{"firefox", "chrome", "safari"} {
+			for _, mu := range c09StructMutants(c09Hello(c09HelloOpt{Browser: b, UID: c09UIDunknown, Method: "echo", Enc: -1}), false) {
+				if len(mu.stream) <= c09Buf { // the model's class is a record that fits the buffer (a repeated 1.2 KiB key_share does not)
+					c09StructPool = append(c09StructPool, mu)
+				}
+			}
+		}
+	})
+	return c09StructPool[rng.Intn(len(c09StructPool))]
+}
+
 func c09Get(lines []string) []byte {
 	return []byte(strings.Join(lines, "\r\n") + "\r\n\r\n")
 }
@@ -519,6 +653,10 @@ func c09Concretise(b *c09Behaviour, rng *kit.Rng, variant int) (*c09Scenario, er
 				if variant%2 == 1 {
 					hdr = []byte{0x16, byte(rng.Intn(256)), byte(rng.Intn(256))}
 				}
+			case "badext":
+				mu := c09StructPick(rng)
+				sc.Label = mu.label
+				hdr, body = mu.stream[:3], mu.stream[5:]
 			case "badhello":
 				h, how := c09BreakHello(c09HelloOf("uid", rng), rng)
 				sc.Label = how
@@ -777,6 +915,34 @@ type c09Result struct {
 	Outcome   string
 }
 
+// c09CrashSite names the innermost function of package server on the panicking goroutine's stack: crash:<function>.
+func c09CrashSite() (key, where string) {
+	buf := make([]byte, 1<<14)
+	buf = buf[:runtime.Stack(buf, false)]
+	lines := strings.Split(string(buf), "\n")
+	for i, l := range lines {
+		if !strings.Contains(l, "Cloak/internal/") || strings.Contains(l, "c09") || strings.Contains(l, "zzverif") {
+			continue
+		}
+		fn := l
+		if k := strings.LastIndex(fn, "("); k > 0 {
+			fn = fn[:k]
+		}
+		fn = fn[strings.LastIndex(fn, "/")+1:]
+		fn = strings.TrimPrefix(fn, "server.")
+		loc := ""
+		if i+1 < len(lines) {
+			loc = strings.TrimSpace(lines[i+1])
+			if k := strings.Index(loc, " +0x"); k > 0 {
+				loc = loc[:k]
+			}
+			loc = loc[strings.LastIndex(loc, "/")+1:]
+		}
+		return "crash:" + fn, fn + " (" + loc + ")"
+	}
+	return "crash:unknown", "?"
+}
+
 // c09Run runs one scenario in a fresh bubble and judges it.
 func c09Run(t *testing.T, sc *c09Scenario) (res c09Result) {
 	stream := sc.bytes()
@@ -833,6 +999,15 @@ func c09Run(t *testing.T, sc *c09Scenario) (res c09Result) {
 		}()
 		var handlerDone atomic.Bool
 		go func() {
+			// ck-server runs `go dispatchConnection(conn, sta)` with nothing above it: a panic in here ends the whole
+			// server process.  The harness recovers it (so the run goes on) and records the verdict.
+			defer func() {
+				if r := recover(); r != nil {
+					key, where := c09CrashSite()
+					viol(key, "dispatchConnection panicked (in ck-server this kills the process): %v at %s; first packet of class %s, %d bytes", r, where, sc.Class, len(stream))
+					handlerDone.Store(true)
+				}
+			}()
 			dispatchConnection(link.End(1), sta)
 			handlerDone.Store(true)
 		}()
@@ -1402,6 +1577,13 @@ func TestVerifC09Explore(t *testing.T) {
 			mk("multi-segments", fmt.Sprintf("%s in %d segments", c.name, len(steps)-1), c.class, c.stream, steps, c.replay)
 		}
 	}
+	// F4b: structured mutations of every extension of an unauthorised user's hello (never to be served, never to crash)
+	for _, b := range []string{"firefox", "chrome", "safari"} {
+		h := c09Hello(c09HelloOpt{Browser: b, UID: c09UIDunknown, Method: "echo", Enc: -1})
+		for _, mu := range c09StructMutants(h, thorough) {
+			mk("structured-hello", b+" hello, "+mu.label, "uid", mu.stream, whole(len(mu.stream)), false)
+		}
+	}
 	// F5: every truncation and single-byte mutation of Cloak hellos of a user that is NOT authorised (no altered
 	// copy may ever be accepted), and every truncation of an authorised one
 	for _, b := range []string{"firefox", "chrome", "safari"} {
@@ -1468,7 +1650,7 @@ func TestVerifC09Explore(t *testing.T) {
 					pool.end(w)
 					ok, _, kind := c09Ref(j.sc.stream)
 					sig := fmt.Sprintf("%s/%s/%s/%s/%s/%d", j.family, j.sc.Class, kind, j.sc.Script, j.sc.Down, len(j.sc.Steps))
-					if j.family == "first-byte" || j.family == "truncated-hello" || j.family == "mutated-hello" {
+					if j.family == "first-byte" || j.family == "truncated-hello" || j.family == "mutated-hello" || j.family == "structured-hello" {
 						sig += "/" + j.sc.Label
 					}
 					pool.record(j.sc, r, j.family, ok && !c09Authenticated(j.sc.Class), sig)
@@ -1490,6 +1672,180 @@ func TestVerifC09Explore(t *testing.T) {
 	res.Stat("control_hung", int64(hung.Load()))
 	res.Stat("explore_scenarios", int64(len(jobs)))
 	res.Stat("explore_wall_ms", time.Since(t0).Milliseconds())
+}
+
+// ------------------------------------------------------------------- concurrent presentations
+
+type c09ConcTarget struct {
+	mu    sync.Mutex
+	conns []net.Conn
+	recv  [][]byte
+}
+
+type c09ConcDialer struct {
+	tn *kit.VNet
+	tg *c09ConcTarget
+}
+
+func (d *c09ConcDialer) Dial(network, address string) (net.Conn, error) {
+	l := d.tn.NewLink(false, false)
+	d.tg.mu.Lock()
+	idx := len(d.tg.conns)
+	d.tg.conns = append(d.tg.conns, l.End(1))
+	d.tg.recv = append(d.tg.recv, nil)
+	d.tg.mu.Unlock()
+	go func() { // a silent target: whatever reaches the peer did not come from here
+		buf := make([]byte, 8192)
+		for {
+			n, err := l.End(1).Read(buf)
+			d.tg.mu.Lock()
+			d.tg.recv[idx] = append(d.tg.recv[idx], buf[:n]...)
+			d.tg.mu.Unlock()
+			if err != nil {
+				return
+			}
+		}
+	}()
+	return l.End(0), nil
+}
+
+// TestVerifC09Concurrent: ONE valid, fresh hello of an authorised user arrives on N = 2..12 connections at the same
+// moment (real goroutines released by a barrier, real clock, no bubble).  Only one of them can be the fresh
+// presentation; every other one is a replay, i.e. a peer the statement is about: it must be relayed byte-exactly and
+// must not get a byte made by the server.  The redirect target is silent, so any byte a peer receives is the server's.
+func TestVerifC09Concurrent(t *testing.T) {
+	c09Quiet()
+	res := c09Res
+	defer func() { res.Save(true) }()
+	rounds := kit.EnvInt("VERIF_C09_ROUNDS", 400)
+	if kit.Thorough() {
+		rounds = kit.EnvInt("VERIF_C09_ROUNDS", 4000)
+	}
+	t0 := time.Now()
+	browsers := []string{"firefox", "safari", "chrome"}
+	for r := 0; r < rounds && res.NumViolations() < 20; r++ {
+		n := 2 + r%11
+		hello := c09Hello(c09HelloOpt{Browser: browsers[r%3], UID: c09UIDok, Method: "echo", Enc: -1, Real: true})
+		vn, tn := kit.NewVNet(), kit.NewVNet()
+		tg := &c09ConcTarget{}
+		proxyL := tn.Listen()
+		go func() {
+			for {
+				c, err := proxyL.Accept()
+				if err != nil {
+					return
+				}
+				go func() { io.Copy(io.Discard, c); c.Close() }()
+			}
+		}()
+		sta := c09NewState(&c09ConcDialer{tn: tn, tg: tg}, proxyL)
+		peers := make([]net.Conn, n)
+		got := make([][]byte, n)
+		var gmu sync.Mutex
+		var crashed atomic.Int32
+		var crashKey, crashWhat atomic.Value
+		start := make(chan struct{})
+		var ready, done sync.WaitGroup
+		for i := 0; i < n; i++ {
+			l := vn.NewLink(false, false)
+			peers[i] = l.End(0)
+			peers[i].Write(hello) // already in the socket buffer when the handler starts
+			go func(i int) {
+				buf := make([]byte, 4096)
+				for {
+					k, err := peers[i].Read(buf)
+					gmu.Lock()
+					got[i] = append(got[i], buf[:k]...)
+					gmu.Unlock()
+					if err != nil {
+						return
+					}
+				}
+			}(i)
+			ready.Add(1)
+			done.Add(1)
+			go func(c net.Conn) {
+				defer done.Done()
+				defer func() {
+					if rec := recover(); rec != nil {
+						k, where := c09CrashSite()
+						crashKey.Store(k)
+						crashWhat.Store(fmt.Sprintf("%v at %s", rec, where))
+						crashed.Add(1)
+					}
+				}()
+				ready.Done()
+				<-start
+				dispatchConnection(c, sta)
+			}(l.End(1))
+		}
+		ready.Wait()
+		close(start)
+		// settle: every connection is either answered by the server or has its whole hello at the target
+		served, relayed, garbled := 0, 0, 0
+		deadline := time.Now().Add(10 * time.Second)
+		for {
+			served, relayed, garbled = 0, 0, 0
+			gmu.Lock()
+			for i := range got {
+				if len(got[i]) > 0 {
+					served++
+				}
+			}
+			gmu.Unlock()
+			tg.mu.Lock()
+			for _, b := range tg.recv {
+				switch {
+				case bytes.Equal(b, hello):
+					relayed++
+				case !bytes.HasPrefix(hello, b):
+					garbled++
+				}
+			}
+			tg.mu.Unlock()
+			if served+relayed+int(crashed.Load()) >= n || time.Now().After(deadline) {
+				break
+			}
+			time.Sleep(200 * time.Microsecond)
+		}
+		time.Sleep(300 * time.Microsecond) // a late second answer would show up here
+		gmu.Lock()
+		served = 0
+		for i := range got {
+			if len(got[i]) > 0 {
+				served++
+			}
+		}
+		gmu.Unlock()
+		replay := map[string]any{"kind": "concurrent", "connections": n, "round": r, "browser": browsers[r%3], "served": served, "relayed": relayed,
+			"hello_hex": hex.EncodeToString(hello)}
+		res.Count(fmt.Sprintf("concurrent/%d/%s", n, browsers[r%3]), true)
+		res.Stat("concurrent_rounds", 1)
+		res.Stat(fmt.Sprintf("concurrent_served_%d", served), 1)
+		switch {
+		case crashed.Load() > 0:
+			res.Violate(crashKey.Load().(string), "dispatchConnection panicked while one valid hello was presented on "+fmt.Sprint(n)+" connections at once: "+crashWhat.Load().(string), replay)
+		case served > 1:
+			res.Violate("relay:replayed-hello-served", fmt.Sprintf("one valid, fresh hello presented on %d connections at the same moment: %d of them were answered with a ServerHello (server-made bytes), "+
+				"%d were relayed to the redirect target; at most one presentation is fresh, every other one is a replay and must be relayed byte for byte", n, served, relayed), replay)
+		case garbled > 0:
+			res.Violate("relay:target-not-prefix", fmt.Sprintf("%d of %d simultaneous presentations reached the target with bytes that are not a prefix of the hello", garbled, n), replay)
+		case served+relayed < n:
+			res.Stat("concurrent_unsettled", 1)
+			res.Note("concurrent round %d: %d connections, %d served, %d relayed after 10 s", r, n, served, relayed)
+		}
+		for _, p := range peers {
+			p.Close()
+		}
+		tg.mu.Lock()
+		for _, c := range tg.conns {
+			c.Close()
+		}
+		tg.mu.Unlock()
+		proxyL.Close()
+		done.Wait()
+	}
+	res.Stat("concurrent_wall_ms", time.Since(t0).Milliseconds())
 }
 
 // ------------------------------------------------------------------------------------------- replay
